@@ -183,7 +183,11 @@ def run(ck):
                 inner = inner[2][0]
         elif inner[0] == "idx" and inner[2][0] == "c":
             inner = inner[1]
-        if inner == bparam:
+        tie = _tuple_key_selection(inner, bparam)
+        if tie is not None:
+            # sorted(rows, key=lambda a: (a.confidence, <tie-break>), reverse=True): still the highest confidence
+            sel = {"key": ("confidence",), "kind": "max", "input": bparam, "has_default": True, "default": T.NONE}
+        elif inner == bparam:
             ck.violation("C05.3", short(bfn), wb, "the candidate reported for a query is taken by its position in the list (seed-peak "
                          "order), not by its confidence", found=T.show(bv)[:160],
                          required="ARGMAX(confidence) over the candidates, default None")
@@ -327,6 +331,51 @@ def groupby_inputs_sorted(ck, rule, only_functions=None):
     if only_functions is None:
         ck.floor(f"{rule} groupby sites judged", n_gb, 5)
     return n_gb
+
+
+def _tuple_key_selection(inner, bparam):
+    """[tie-break components] when `inner` is sorted(<candidates>, key=lambda a: (a.confidence, t1, ...), reverse=True)"""
+    if not (inner[0] == "call" and inner[1] == "sorted" and len(inner[2]) == 1 and inner[2][0] == bparam):
+        return None
+    kw = dict(inner[3])
+    key = kw.get("key")
+    if kw.get("reverse") != C(True) or key is None or key[0] != "lam" or key[1] != 1 or key[2][0] != "tuple" or len(key[2][1]) < 2:
+        return None
+    bvs = [x for x in T.subterms(key[2]) if x[0] == "bv"]
+    if not bvs or key[2][1][0] != T.mk_attr(bvs[0], "confidence"):
+        return None
+    return list(key[2][1][1:])
+
+
+def best_candidate_tiebreak(ck, rule):
+    """among equally confident candidates the choice must not look at the strand: no tie-break component reads a quantity that
+    changes sign or order with the strand (query start / end, orientation)"""
+    from ..rules.common import parallel_map_site
+    ctx = ck.ctx
+    fn_exec, call, mapname, worker_lambda, worker = parallel_map_site(ctx)
+    sel_fns = [ctx.p.get_function(pa.value[1]) for pa in explore(ck, worker, unroll=(0, 1))
+               if pa.outcome == "return" and pa.value is not None and pa.value[0] == "app"]
+    n = 0
+    for bfn in dict.fromkeys(sel_fns):
+        bparam = V(bfn.call_params()[0].name)
+        for pa in explore(ck, bfn):
+            if pa.outcome != "return" or pa.value is None:
+                continue
+            for x in T.subterms(pa.value):
+                tie = _tuple_key_selection(x, bparam) if x[0] == "call" else None
+                if tie is None:
+                    continue
+                n += 1
+                bad = [a for t in tie for a in T.subterms(t) if a[0] == "attr" and a[2] in (
+                    "queryStartPosition", "queryEndPosition", "reverseStrand", "orientation", "reverse")]
+                ck.judge(not bad, rule, short(bfn) + ":tie-break", where(bfn, pa.node),
+                         "equally confident candidates are not told apart by the strand (query start > query end on '-': a signed "
+                         "span, the start coordinate or the orientation always favours one strand)",
+                         found="; ".join(T.show(t)[:80] for t in tie), required="confidence alone (ties in candidate order), or a "
+                         "strand-symmetric quantity")
+    if not n:
+        ck.ok(rule, "best-candidate:tie-break", worker.where, "the winner is chosen by confidence alone: ties fall to the candidate "
+              "order, which is the strand-symmetric seed score order")
 
 
 def seeds_over_all_references(ck, rule):
